@@ -20,7 +20,10 @@ REGRESS_TARGET = {"F1": ["C01"], "F2": ["C01"], "F3": ["C04", "C01", "C11"], "F4
 # property that owns the site is the one expected to fire (reason recorded in DESIGN.md §8)
 ALT_TARGET = {"C06-D": ["C19"],   # given for C06; the Python wrapper replaces `data is None` by Python truthiness: a wrapper defect (C19 K1)
               "C02-I": ["C19", "C02"], "C08-I": ["C19", "C08"], "C11-I": ["C19", "C11"],   # changes in py/jsonlogic_rs/__init__.py (and the binding): the wrapper no longer only (de)serialises (C19 K1/K2)
-              "C05-G": ["C18", "C05"]}   # the command validates dead branches before evaluating: the command is no faithful wrapper any more (C18 K5)   # given for C06; the Python wrapper replaces `data is None` by Python truthiness: a wrapper defect (C19 K1)
+              "C05-G": ["C18", "C05"],
+              # round 5: changes whose site is the Python wrapper / binding (C19) or the command (C18)
+              "C11-L": ["C19", "C11"], "C07-L": ["C19", "C07"], "C08-L": ["C19", "C08"], "C06-J": ["C19", "C06"], "C17-L": ["C19", "C17"],
+              "C16-L": ["C18", "C16"]}   # the command validates dead branches before evaluating: the command is no faithful wrapper any more (C18 K5)   # given for C06; the Python wrapper replaces `data is None` by Python truthiness: a wrapper defect (C19 K1)
 
 
 def jobs():
